@@ -274,23 +274,20 @@ def c01_not(R):
     fn = tree.func(SIMP, "boolean_not_simplifier")
     p = positional_params(fn)[0]
     seen = set()
-    for st in fn.body:
-        if not isinstance(st, ast.If):
+    # the arms of the dispatch on <param>.op, whether written as an if-chain or as match/case
+    arms = util.value_arms(fn, f"{p}.op")
+    for ktxt, stmts in sorted(arms.items()):
+        try:
+            k = ast.literal_eval(ktxt)
+        except Exception:  # noqa: BLE001
             continue
-        t = st.test
-        if not (
-            isinstance(t, ast.Compare)
-            and ast.unparse(t.left) == f"{p}.op"
-            and isinstance(t.ops[0], ast.Eq)
-            and isinstance(t.comparators[0], ast.Constant)
-        ):
-            R.bad(m, st, f"arm with a test outside the table shape: `{norm(t)}`")
+        rets = [st for st in stmts if isinstance(st, ast.Return) and st.value is not None and not (isinstance(st.value, ast.Constant) and st.value.value is None)]
+        if not isinstance(k, str):
             continue
-        k = t.comparators[0].value
-        ret = st.body[-1]
-        if not isinstance(ret, ast.Return):
-            R.bad(m, st, f"arm for {k} does not return")
+        if len(rets) != 1:
+            R.bad(m, stmts[0], f"arm for {k} does not return exactly one rewrite", construct=f"boolean_not_simplifier arm {k} shape")
             continue
+        ret = rets[0]
         if k == "Not":
             R.check(
                 ast.unparse(ret.value) == f"{p}.args[0]",
@@ -304,7 +301,7 @@ def c01_not(R):
         op, args = _op_of_expr(ret.value)
         want = refs.NEGATE.get(k)
         if want is None:
-            R.bad(m, st, f"rewrite for Not({k}) is not in the reference table")
+            R.bad(m, ret, f"rewrite for Not({k}) is not in the reference table")
             continue
         seen.add(k)
         R.check(
